@@ -118,8 +118,21 @@ func c15Worker() {
 			ptttype.SetIsTest()
 			cache.SetIsTest()
 			cmbbs.SetIsTest()
+			// the start-up of a bbs process that joins a running site (main_init.go initMain with IS_NEW_SHM false):
+			// attach to the shared memory, load the user hash only if nobody has, check the attachment, then
+			// cmbbs.PasswdInit() with cmbbs.Sem == nil: the semaphore exists, so this is the attach path
 			if err := cache.NewSHM(cache.TestShmKey, ptttype.USE_HUGETLB, false); err != nil {
 				emit("fail shm " + err.Error())
+				return
+			}
+			if cache.Shm.Shm.Loaded == 0 {
+				if err := cache.LoadUHash(); err != nil {
+					emit("fail uhash " + err.Error())
+					return
+				}
+			}
+			if err := cache.AttachCheckSHM(); err != nil {
+				emit("fail attachcheck " + err.Error())
 				return
 			}
 			if err := cmbbs.PasswdInit(); err != nil {
@@ -157,9 +170,10 @@ func c15Worker() {
 				emit(fmt.Sprintf("done %d %d %d", t, c15ErrCode(err), uid))
 			}(t, mode, id, g)
 			emit("ready")
-		case "stress": // stress <ngor> <ids, length-prefixed>: every goroutine registers every id of the pool, unscheduled
+		case "stress": // stress <ngor> <rounds> <ids, length-prefixed>: every goroutine registers every id of the pool <rounds> times, unscheduled
 			ngor := int(ai(f[1]))
-			pool := c15Dec(f[2:])
+			rounds := int(ai(f[2]))
+			pool := c15Dec(f[3:])
 			var slots sync.Map // *UserecRaw -> uid seen at reg.beforeUnlock
 			ptt.VerifPointHook = func(name string, user *ptttype.UserecRaw, uid ptttype.UID) {
 				if name == "reg.beforeUnlock" {
@@ -186,7 +200,7 @@ func c15Worker() {
 				wg.Add(1)
 				go func(g int) {
 					defer wg.Done()
-					for k := range pool {
+					for k := 0; k < rounds*len(pool); k++ {
 						j := (k + g) % len(pool)
 						user := &ptttype.UserecRaw{Version: ptttype.PASSWD_VERSION, UserLevel: ptttype.PERM_DEFAULT, Pager: ptttype.PAGER_ON,
 							FirstLogin: types.NowTS(), LastLogin: types.NowTS(), NumLoginDays: 1}
@@ -364,18 +378,58 @@ func c15RunHistory(args [][]string) []string {
 	return c15RunPhases(int(ai(args[1][0])), c15Dec(args[2]), phases)
 }
 
+// schedule tokens: t >= 0 releases thread t of the phase; negative tokens are process events
+//
+//	-(10+p) process p is started now (exec + the normal start-up incl. cmbbs.PasswdInit on the attach path); a process
+//	        with such a token anywhere in the history is NOT started up-front, and its threads are created when it joins
+//	-(30+p) process p exits normally (os.Exit(0)) whatever its calls are doing
+//	-(50+p) process p is killed (SIGKILL)
+//
+// In both exit cases the kernel applies the SEM_UNDO adjustments of the process; its unfinished calls never return.
+func c15Token(s int) (kind, p int) {
+	if s >= 0 {
+		return 0, s
+	}
+	v := -s
+	switch {
+	case v >= 10 && v < 18:
+		return 1, v - 10
+	case v >= 30 && v < 38:
+		return 2, v - 30
+	case v >= 50 && v < 58:
+		return 3, v - 50
+	}
+	return -1, 0
+}
+
 // result: 0 trace (t code v)* -1 per thread (code value returned-uid)* -1 lookups -1 index ids -1 .PASSWDS ids
 // trace codes: 1..3 schedule point, 4 returned nil, 5 returned error, 10 released towards a taken semaphore,
-// 11 (t = 99) the semaphore value read by the controller at that moment
+// 11 (t = 99) the semaphore value read by the controller at that moment,
+// 12 (t = process) the process finished its start-up and joined, 13 (t = process, v = 0 exit / 1 SIGKILL) the process is gone
+// per thread code: 1 returned nil, 2 returned an error, 3 its process went away before it returned (value = the uid it
+// had reached reg.beforeUnlock with, i.e. index and .PASSWDS written, else 0), 0 none of these
 func c15RunPhases(mode int, tab [][]byte, phases []*c15Phase) []string {
 	e := c15Env
 	nproc := 0
 	procs := []int{}
 	ids := [][]byte{}
+	lazy := map[int]bool{}
 	for _, ph := range phases {
 		for _, p := range ph.procs {
 			if p+1 > nproc {
 				nproc = p + 1
+			}
+		}
+		for _, s := range ph.sched {
+			kind, p := c15Token(s)
+			if kind < 0 {
+				return []string{"9"}
+			}
+			if kind >= 1 && p+1 > nproc {
+				nproc = p + 1
+			}
+			if kind == 1 {
+				lazy[p] = true
 			}
 		}
 		procs = append(procs, ph.procs...)
@@ -386,6 +440,16 @@ func c15RunPhases(mode int, tab [][]byte, phases []*c15Phase) []string {
 
 	events := make(chan c15Event, 64)
 	ws := make([]*c15Proc, nproc)
+	waitProc := func(w *c15Proc) {
+		done := make(chan struct{})
+		go func() { w.cmd.Wait(); close(done) }()
+		select {
+		case <-done:
+		case <-time.After(2 * time.Second):
+			w.cmd.Process.Kill() // SEM_UNDO gives the semaphore back
+			<-done
+		}
+	}
 	defer func() {
 		for _, w := range ws {
 			if w == nil {
@@ -393,18 +457,11 @@ func c15RunPhases(mode int, tab [][]byte, phases []*c15Phase) []string {
 			}
 			fmt.Fprintln(w.in, "quit")
 			w.in.Close()
-			done := make(chan struct{})
-			go func(w *c15Proc) { w.cmd.Wait(); close(done) }(w)
-			select {
-			case <-done:
-			case <-time.After(2 * time.Second):
-				w.cmd.Process.Kill() // SEM_UNDO gives the semaphore back
-				<-done
-			}
+			waitProc(w)
 		}
 	}()
 	readies := make([]chan string, nproc)
-	for p := 0; p < nproc; p++ {
+	startProc := func(p int) string {
 		exe, err := os.Executable()
 		must(err)
 		cmd := exec.Command(exe, "C15W")
@@ -441,32 +498,52 @@ func c15RunPhases(mode int, tab [][]byte, phases []*c15Phase) []string {
 		select {
 		case r := <-ready:
 			if r != "ready" {
-				return []string{"3", "8"}
+				return "fail"
 			}
 		case <-time.After(10 * time.Second):
+			return "hang"
+		}
+		return ""
+	}
+	up := make([]bool, nproc)   // started and not gone
+	gone := make([]bool, nproc) // exited or killed
+	for p := 0; p < nproc; p++ {
+		if lazy[p] {
+			continue
+		}
+		switch startProc(p) {
+		case "fail":
+			return []string{"3", "8"}
+		case "hang":
 			return []string{"2"}
 		}
+		up[p] = true
 	}
+	made := make([]bool, n)
 	mkThread := func(t, p int) bool {
 		fmt.Fprintf(ws[p].in, "thr %d %d %s\n", t, mode, strings.Join(ob(ids[t]), " "))
 		select {
 		case <-readies[p]:
+			made[t] = true
 			return true
 		case <-time.After(10 * time.Second):
 			return false
 		}
 	}
 
-	// phase: 0 not started, 1 passed the existence check, 2 holds the semaphore, 3 before unlock, 4 returned
+	// phase: 0 not started, 1 passed the existence check, 2 holds the semaphore, 3 before unlock, 4 returned, 5 its process is gone
 	phase := make([]int, n)
 	pending := make([]bool, n) // released towards PasswdLock while another thread holds the semaphore
-	resCode := make([]int, n)  // 1 ok, 2 error
+	resCode := make([]int, n)  // 1 ok, 2 error, 3 process gone
 	resVal := make([]int, n)   // uid observed at reg.beforeUnlock | error class
 	retUID := make([]int, n)   // uid returned by NewRegister (mode 1)
 	trace := []string{}
 	hang := false
 	sample := func() { trace = append(trace, "99", "11", fmt.Sprint(c15SemVal())) }
 	record := func(ev c15Event) {
+		if ev.t < 0 || ev.t >= n || phase[ev.t] == 5 {
+			return
+		}
 		switch ev.code {
 		case 1, 2, 3:
 			phase[ev.t] = ev.code
@@ -512,7 +589,7 @@ func c15RunPhases(mode int, tab [][]byte, phases []*c15Phase) []string {
 		return false
 	}
 	release := func(t int) {
-		if hang || phase[t] == 4 || pending[t] {
+		if hang || !made[t] || phase[t] >= 4 || pending[t] {
 			return
 		}
 		fmt.Fprintf(ws[procs[t]].in, "go %d\n", t)
@@ -556,24 +633,117 @@ func c15RunPhases(mode int, tab [][]byte, phases []*c15Phase) []string {
 			record(*lock)
 		}
 	}
+	off, np := 0, 0
+	// a process joins while the calls of the others are parked wherever the schedule left them
+	join := func(p int) bool {
+		if up[p] || gone[p] {
+			return true
+		}
+		switch startProc(p) {
+		case "fail":
+			return false
+		case "hang":
+			hang = true
+			return false
+		}
+		up[p] = true
+		trace = append(trace, fmt.Sprint(p), "12", "0")
+		sample() // right after the newcomer's PasswdInit: nothing else has moved
+		for t := off; t < off+np; t++ {
+			if procs[t] == p && !made[t] {
+				if !mkThread(t, p) {
+					hang = true
+					return false
+				}
+			}
+		}
+		return true
+	}
+	// a process goes away (exit or SIGKILL) with its calls parked wherever the schedule left them
+	leave := func(p int, kill bool) {
+		if !up[p] || hang {
+			return
+		}
+		h := holder()
+		heldHere := h >= 0 && procs[h] == p
+		w := ws[p]
+		if kill {
+			w.cmd.Process.Kill()
+			w.in.Close()
+			w.cmd.Wait()
+		} else {
+			fmt.Fprintln(w.in, "quit")
+			w.in.Close()
+			waitProc(w)
+		}
+		ws[p] = nil // reaped: the kernel has applied its SEM_UNDO adjustments
+		up[p], gone[p] = false, true
+		for t := 0; t < n; t++ {
+			if procs[t] == p && phase[t] != 4 && (made[t] || t < off+np) {
+				if phase[t] != 3 {
+					resVal[t] = 0
+				}
+				phase[t], pending[t], resCode[t], made[t] = 5, false, 3, true
+			}
+		}
+		k := 0
+		if kill {
+			k = 1
+		}
+		trace = append(trace, fmt.Sprint(p), "13", fmt.Sprint(k))
+		if heldHere && anyPending() {
+			// the semaphore it held is given back by the kernel: exactly one queued call of another process obtains it
+			for {
+				ev, ok := nextEvent()
+				if !ok {
+					return
+				}
+				got := ev.code == 2 && pending[ev.t]
+				record(ev)
+				if got {
+					break
+				}
+			}
+		}
+		sample()
+	}
 	sample() // before anything runs: the semaphore as PasswdInit left it
-	off := 0
 	for pi, ph := range phases {
-		np := len(ph.procs)
+		np = len(ph.procs)
 		for t := 0; t < np; t++ {
-			if !mkThread(off+t, ph.procs[t]) {
+			if up[ph.procs[t]] && !mkThread(off+t, ph.procs[t]) {
 				return []string{"2"}
 			}
 		}
-		for _, t := range ph.sched {
-			if t >= 0 && t < np {
-				release(off + t)
+		for _, s := range ph.sched {
+			switch kind, v := c15Token(s); kind {
+			case 0:
+				if v < np {
+					release(off + v)
+				}
+			case 1:
+				if !join(v) && !hang {
+					return []string{"3", "8"}
+				}
+			case 2, 3:
+				leave(v, kind == 3)
+			}
+			if hang {
+				return []string{"2"}
+			}
+		}
+		for t := off; t < off+np; t++ { // the threads of a process that never came up cannot run: bad case
+			if !made[t] && !gone[ph.procs[t]] {
+				return []string{"9"}
+			}
+			if !made[t] { // its process went away before the call was issued
+				phase[t], resCode[t], made[t] = 5, 3, true
 			}
 		}
 		for guard := 0; guard < 10*np+10 && !hang; guard++ {
 			moved := false
 			for t := off; t < off+np; t++ {
-				if phase[t] != 4 && !pending[t] {
+				if phase[t] < 4 && !pending[t] {
 					release(t)
 					moved = true
 				}
@@ -587,7 +757,7 @@ func c15RunPhases(mode int, tab [][]byte, phases []*c15Phase) []string {
 		}
 		if pi > 0 { // a phase issued after all earlier calls returned must complete by itself
 			for t := off; t < off+np; t++ {
-				if phase[t] != 4 {
+				if phase[t] < 4 {
 					return []string{"2"}
 				}
 			}
@@ -616,16 +786,27 @@ func c15RunPhases(mode int, tab [][]byte, phases []*c15Phase) []string {
 	return out
 }
 
-// case: 2|nproc ngor|id pool|initial table  — unscheduled stress: nproc processes x ngor goroutines, each registering every id
+// case: 2|nproc ngor [njoin rounds]|id pool|initial table  — unscheduled stress: nproc processes x ngor goroutines, each registering every id
+// (rounds times); njoin further processes run the normal start-up (cmbbs.PasswdInit on the attach path) once the others have been
+// told to start, i.e. while those registrations are in flight, and then do the same work
 // result: 0 (proc gor idindex code uid)* -1 index ids -1 .PASSWDS ids -1 semaphore value after all calls returned (workers still alive)
 func c15Stress(args [][]string) []string {
-	if len(args) != 4 || len(args[1]) != 2 {
+	if len(args) != 4 || (len(args[1]) != 2 && len(args[1]) != 4) {
 		return []string{"9"}
 	}
 	e := c15Env
 	nproc, ngor := int(ai(args[1][0])), int(ai(args[1][1]))
 	if nproc < 1 || nproc > 8 || ngor < 1 || ngor > 64 {
 		return []string{"9"}
+	}
+	nfirst, rounds := nproc, 1
+	if len(args[1]) == 4 {
+		nj := int(ai(args[1][2]))
+		rounds = int(ai(args[1][3]))
+		if nj < 0 || nj > 4 || rounds < 1 || rounds > 100 {
+			return []string{"9"}
+		}
+		nproc += nj
 	}
 	pool := c15Dec(args[2])
 	c15ResetTable(e, c15Dec(args[3]))
@@ -639,7 +820,7 @@ func c15Stress(args [][]string) []string {
 	sdone := make(chan int, nproc)
 	ws := make([]*c15Proc, nproc)
 	starts := make([]chan bool, nproc)
-	for p := 0; p < nproc; p++ {
+	spawn := func(p int) {
 		cmd := exec.Command(exe, "C15W")
 		cmd.Env = os.Environ()
 		in, _ := cmd.StdinPipe()
@@ -670,29 +851,62 @@ func c15Stress(args [][]string) []string {
 			}
 			resc <- r
 		}(p, out)
-		fmt.Fprintf(in, "attach %s %d %d\n", e.root, int(cache.TestShmKey), cmbbs.TestPASSWDSEM_KEY)
+	}
+	attach := func(p int) { // the start-up of process p: attach the shared memory, cmbbs.PasswdInit
+		fmt.Fprintf(ws[p].in, "attach %s %d %d\n", e.root, int(cache.TestShmKey), cmbbs.TestPASSWDSEM_KEY)
+	}
+	for p := 0; p < nproc; p++ { // the joiners are exec'ed now but start up (attach) only when the others are at work
+		spawn(p)
+		if p < nfirst {
+			attach(p)
+		}
 	}
 	kill := func() {
 		for _, w := range ws {
+			if w == nil {
+				continue
+			}
 			w.in.Close()
 			w.cmd.Process.Kill()
 			w.cmd.Wait()
 		}
 	}
-	for p := 0; p < nproc; p++ {
+	waitStart := func(p int) string {
 		select {
 		case okk := <-starts[p]:
 			if !okk {
-				kill()
-				return []string{"3", "8"}
+				return "fail"
 			}
 		case <-time.After(10 * time.Second):
+			return "hang"
+		}
+		return ""
+	}
+	for p := 0; p < nfirst; p++ {
+		switch waitStart(p) {
+		case "fail":
+			kill()
+			return []string{"3", "8"}
+		case "hang":
 			kill()
 			return []string{"2"}
 		}
 	}
-	for p := 0; p < nproc; p++ { // start them as simultaneously as possible
-		fmt.Fprintf(ws[p].in, "stress %d %s\n", ngor, strings.Join(c15Enc(pool), " "))
+	for p := 0; p < nfirst; p++ { // start them as simultaneously as possible
+		fmt.Fprintf(ws[p].in, "stress %d %d %s\n", ngor, rounds, strings.Join(c15Enc(pool), " "))
+	}
+	for p := nfirst; p < nproc; p++ { // the joiners start up while the registrations of the others are in flight
+		time.Sleep(time.Duration(1+p-nfirst) * time.Millisecond)
+		attach(p)
+		switch waitStart(p) {
+		case "fail":
+			kill()
+			return []string{"3", "8"}
+		case "hang":
+			kill()
+			return []string{"2"}
+		}
+		fmt.Fprintf(ws[p].in, "stress %d %d %s\n", ngor, rounds, strings.Join(c15Enc(pool), " "))
 	}
 	out := []string{"0"}
 	hang := false
